@@ -146,21 +146,23 @@ Fixpoint proper_prefixes (acc : fpath) (cs : list fseg) : list fpath :=
   | c :: t => match t with [] => [] | _ => (acc ++ [c]) :: proper_prefixes (acc ++ [c]) t end
   end.
 
-(** [validate_new_object_root], fs.rs:160-194 (fix 3d2a8ca): every component Normal or CurDir,
-    at least one Normal (current != storage_root), and no proper ancestor directory is an
+(** [validate_object_root], fs.rs:158-206 (fixes 3d2a8ca, 4ac5c07, a1975f1), used for "create"
+    and for "purge": every component Normal or CurDir, the first Normal component is not
+    `extensions` (reserved by OCFL for the storage root; rocfl's staging lives there), at least
+    one Normal component (current != storage_root), and no proper ancestor directory is an
     object root.  (An I/O error of the directory probe is a refusal as well.) *)
-Definition validate_new_object_root (s : pre) (R : fpath) (rel : bytes) : bool :=
-  rel_safe rel && forallb (fun a => negb (is_object_root s a)) (proper_prefixes R (ncomps rel)).
+Definition first_is_extensions (rel : bytes) : bool :=
+  match ncomps rel with sg :: _ => seg_eqb sg K_EXTENSIONS_DIR | [] => false end.
+Definition validate_object_root (s : pre) (R : fpath) (rel : bytes) : bool :=
+  rel_safe rel && negb (first_is_extensions rel)
+  && forallb (fun a => negb (is_object_root s a)) (proper_prefixes R (ncomps rel)).
 
 (** fs.rs:387-393: storage_path.exists() *)
 Definition target_exists (s : pre) (N : fpath) : bool :=
   p_occupied s || existsb (fun o => under N (m_root o)) (p_objs s) || existsb (under N) (p_staged s).
 
 Definition new_root_ok (s : pre) (R : fpath) (rel : bytes) : bool :=
-  validate_new_object_root s R rel && negb (target_exists s (main_root R rel)).
-
-(** the lexical guard of [purge_object], fs.rs:500-510 (fix 4f95370): all components Normal or CurDir *)
-Definition purge_lex (rel : bytes) : bool := rel_inside rel.
+  validate_object_root s R rel && negb (target_exists s (main_root R rel)).
 
 Definition mobj_at (s : pre) (p : fpath) : option mobj := find (fun o => fpath_eqb (m_root o) p) (p_objs s).
 
@@ -301,16 +303,30 @@ Definition commit_version (c : cfg) (s : pre) (o : opd) (f : fsop) : bool :=
       end
   end.
 
-(** purge of the object in the main repository, fs.rs:489-546 AS THE CODE IS: everything at
-    and below storage_root.join(root path) whenever the lexical guard passes, then the
-    emptied ancestors ([clean_dirs_up] stops at the storage root, which is never empty) *)
-Definition purge_main (c : cfg) (o : opd) (f : fsop) : bool :=
-  purge_lex (o_rel o) &&
+(** purge of an object, fs.rs:499-561 (fixes 4f95370, 4ac5c07, 11ac34d) - the same function
+    serves the main repository and the staging repository (reset, and the end of commit):
+    [validate_object_root] must accept the root path; an existing directory is removed if it is
+    an object root (and, when its inventory parses, carries the purged id: [idok]), or if it is
+    no object root and no object root lies beneath it ([contains_object_root], fs.rs:1138-1147:
+    debris of a failed operation); then the emptied ancestors ([clean_dirs_up] stops at the
+    storage root, which is never empty; this also runs when the path does not exist) *)
+Definition any_root_below (s : pre) (N : fpath) : bool :=
+  existsb (fun m => below N (m_root m)) (p_objs s) || existsb (below N) (p_staged s).
+Definition purge_removes (s : pre) (idok : bool) (N : fpath) : bool :=
+  if is_object_root s N then idok else negb (any_root_below s N).
+
+Definition purge_main (c : cfg) (s : pre) (o : opd) (f : fsop) : bool :=
+  validate_object_root s (c_root c) (o_rel o) &&
   match f with
-  | Unlink p => below (N_o c o) p
-  | Rmdir p => under (N_o c o) p || (below (c_root c) p && below p (N_o c o))
+  | Unlink p => purge_removes s (o_exists o) (N_o c o) && below (N_o c o) p
+  | Rmdir p => (purge_removes s (o_exists o) (N_o c o) && under (N_o c o) p)
+               || (below (c_root c) p && below p (N_o c o))
   | _ => false
   end.
+
+(** reset / purge remove the staged object directory under the same rule *)
+Definition body_gate (c : cfg) (s : pre) (o : opd) : bool :=
+  match o_kind o with KResetAll | KPurge => purge_removes s true (S_o c o) | _ => true end.
 
 (** init (fs.rs:1289-1379): the storage root, its ancestors, files and the layout extension
     directory inside it;  upgrade of the repository (fs.rs:638-650) *)
@@ -333,10 +349,10 @@ Definition allowed (c : cfg) (s : pre) (o : opd) (f : fsop) : bool :=
   (uses_staging k && stage_infra c f)
   || (takes_lock k && stage_lock c o f)
   || (uses_staging k && stage_anc c o f)
-  || (body_ops k f && stage_body c o f)
+  || (body_ops k f && stage_body c o f && body_gate c s o)
   || (match k with KMvExt => mv_sources c o f | _ => false end)
   || (match k with KCommit | KUpgrade => commit_new c s o f || commit_version c s o f | _ => false end)
-  || (match k with KPurge => purge_main c o f | _ => false end)
+  || (match k with KPurge => purge_main c s o f | _ => false end)
   || (match k with KInit => init_ops c f | _ => false end)
   || (match k with KUpgradeRepo => upgrade_repo_ops c f | _ => false end).
 
@@ -498,12 +514,17 @@ Definition gin_ok (c : cfg) (s : pre) (o : opd) (g : gin) : bool :=
      | _ => is_nil (g_remove g)
      end
   && match o_kind o with
-     | KResetAll | KCommit | KUpgrade =>
+     | KResetAll =>
+         (purge_removes s true (S_o c o) || (is_nil (g_files g) && is_nil (g_dirs g)))
+         && forallb (fun p => below (S_o c o) p) (g_files g) && forallb (fun p => under (S_o c o) p) (g_dirs g)
+     | KCommit | KUpgrade =>
          forallb (fun p => below (S_o c o) p) (g_files g) && forallb (fun p => under (S_o c o) p) (g_dirs g)
      | KPurge =>
-         purge_lex (o_rel o)
-         && forallb (fun p => below (N_o c o) p || below (S_o c o) p) (g_files g)
-         && forallb (fun p => under (N_o c o) p || under (S_o c o) p) (g_dirs g)
+         validate_object_root s (c_root c) (o_rel o)
+         && forallb (fun p => (purge_removes s (o_exists o) (N_o c o) && below (N_o c o) p)
+                              || (purge_removes s true (S_o c o) && below (S_o c o) p)) (g_files g)
+         && forallb (fun p => (purge_removes s (o_exists o) (N_o c o) && under (N_o c o) p)
+                              || (purge_removes s true (S_o c o) && under (S_o c o) p)) (g_dirs g)
      | _ => is_nil (g_files g) && is_nil (g_dirs g)
      end
   && match o_kind o with
